@@ -14,6 +14,7 @@ def body(led):
     led.trust('cmverif symbolic executor; numpy object arrays for reshape/ravel/meshgrid semantics')
     py_fields.check_panel_fields(led)
     py_fields.check_assembly_fields(led)
+    py_fields.check_bay_fields(led)
     from . import c11_kernel
     c11_kernel.body(led)
     from . import c11_wrap
